@@ -53,6 +53,19 @@ func CompareWithSlash(a, b []byte) int { //nolint:revive
 	return 0
 }
 
+// SeparatorWithSlash returns a key k with a <= k < b in the slash order. The
+// bytewise shortening done by pebble.DefaultComparer.Separator is not valid under
+// this order (e.g. it turns "a/b/c" into "a/c", which sorts before "a/b/c"), so
+// the key is returned unchanged, which pebble documents as always valid.
+func SeparatorWithSlash(dst, a, _ []byte) []byte {
+	return append(dst, a...)
+}
+
+// SuccessorWithSlash returns a key k >= a in the slash order (a itself).
+func SuccessorWithSlash(dst, a []byte) []byte {
+	return append(dst, a...)
+}
+
 func AbbreviatedKeyDisableSlash(key []byte) uint64 {
 	slashPosition := bytes.IndexByte(key, '/')
 	if slashPosition != -1 {
